@@ -34,6 +34,8 @@ func stressMain(args []string) {
 		"defaults:\n  ttl: 1s\n  observer_type: histogram\n  histogram_options:\n    buckets: [0.1, 1, 10]\nmappings:\n- match: a.*\n  name: a_$1\n  labels:\n    lbl: $1\n- match: b.*.*\n  name: b\n  observer_type: summary\n",
 		"defaults:\n  ttl: 2s\n  observer_type: summary\nmappings:\n- match: a.*\n  name: a2_$1\n- match: '^c\\.(.*)$'\n  match_type: regex\n  name: c_$1\n",
 		"mappings: []\n",
+		// unordered glob mode with capture references (the FSM's early-return path)
+		"defaults:\n  glob_disable_ordering: true\n  ttl: 1s\nmappings:\n- match: a.*\n  name: au_$1\n  labels:\n    lbl: $1\n- match: b.*.*\n  name: bu_$2\n  labels:\n    l1: $1\n    l2: $2\n",
 	}
 	for _, kind := range []string{"none", "lru", "rr"} {
 		m := newRealMapper(kind, 8)
